@@ -303,6 +303,41 @@ def r3(ctx):
     def calls_named(ps, name):
         return [e_ for e_ in ps.effects if e_[0] == "call" and u(e_[1].func) == name]
 
+    # heap index arithmetic written in place reads as the helper it stands for: (i - 1) // 2 is _parent(i), 2 * i + 1 is
+    # _left_child(i), 2 * i + 2 is _right_child(i) (any spelling with the same linear form)
+    folded = {"_parent": 0, "_left_child": 0, "_right_child": 0}
+
+    class _Fold(ast.NodeTransformer):
+        def visit_BinOp(self, node):
+            self.generic_visit(node)
+            nm = None
+            if isinstance(node.op, ast.FloorDiv) and u(node.right) == "2":
+                lf = linear(node.left)
+                vs = [k for k in (lf or {}) if k]
+                if lf and len(vs) == 1 and lf.get(vs[0]) == 1 and lf.get("", 0) == -1:
+                    nm, var = "_parent", vs[0]
+            else:
+                lf = linear(node)
+                vs = [k for k in (lf or {}) if k]
+                if lf and len(vs) == 1 and lf.get(vs[0]) == 2 and lf.get("", 0) in (1, 2):
+                    nm, var = ("_left_child" if lf.get("", 0) == 1 else "_right_child"), vs[0]
+            if nm is None:
+                return node
+            try:
+                arg = ast.parse(var, mode="eval").body
+            except SyntaxError:
+                return node
+            folded[nm] += 1
+            return ast.fix_missing_locations(ast.copy_location(ast.Call(func=ast.Name(id=nm, ctx=ast.Load()), args=[arg], keywords=[]), node))
+
+    for q_ in (PQ + "._sift_up", PQ + "._sift_down"):
+        f_ = ctx.func(q_)
+        if not getattr(f_.node, "_heap_folded", False):
+            _Fold().visit(f_.node)
+            from sa.model import set_parents
+
+            set_parents(f_.node)
+            f_.node._heap_folded = True
     su = ctx.func(PQ + "._sift_up")
     sucfg = ctx.cfg(su)
     idx = util.params_of(su.node)[1]
@@ -337,6 +372,8 @@ def r3(ctx):
     # swap-and-continue paths; the paths that leave the function are the ones that stop
     for lp_ in [n for n in walk_function(sdn.node) if isinstance(n, ast.While)]:
         sums = sums + pathfx.iteration_summaries(dcfg, lp_)
+    # a child index is never the node's own index (2i+1, 2i+2 > i for i >= 0): paths that assume it are not paths
+    sums = [ps for ps in sums if not any(p_ and t_ in ("%s == %s" % (idx, c_), "%s == %s" % (c_, idx)) for t_, p_ in ps.atoms for c_ in (L, R))]
     ctx.require(len(sums) >= 3, "_sift_down has fewer than three feasible paths")
     lowf = lambda ps, a_, b_, pol: ps.has("self._score_lower(%s, %s)" % (a_, b_), pol)
     n_sw = 0
@@ -384,6 +421,11 @@ def r3(ctx):
     okcov = {("both", L), ("both", R), ("left-only", L)} <= swapped_children
     ctx.ob(sdn.qual, "children-indices", okcov, sdn.loc(), "children are _left_child(i), _right_child(i); a swap is possible with either child when both exist and with the left one when it is the only one" if okcov else "_sift_down does not cover the three cases (both children: left / right larger; left child only): %s" % sorted(swapped_children))
     for name, want in (("_parent", {"index": 1, "": -1}), ("_left_child", None), ("_right_child", None)):
+        if (MOD + "." + name) not in ctx.prog.functions:
+            # no helper: the arithmetic is written where it is used and was read above by its linear form
+            used = any(isinstance(c_, ast.Call) and u(c_.func) == name for f2 in (su, sdn) for c_ in ast.walk(f2.node))
+            ctx.ob(MOD + "." + name, "index-arithmetic", True if used else None, su.loc(), "%s(i) is written in place with the same linear form" % name if used else "neither a helper %s nor its arithmetic is found in the sift functions" % name)
+            continue
         f = ctx.func(MOD + "." + name)
         ret = [n for n in walk_function(f.node) if isinstance(n, ast.Return)][0].value
         if name == "_parent":
@@ -402,7 +444,15 @@ def r3(ctx):
     vloops = [n for n in walk_function(vl.node) if isinstance(n, ast.For)]
     prob = None
     vwh = [n for n in walk_function(vl.node) if isinstance(n, ast.While)]
-    if not vloops and len(vwh) == 1:
+    vbody = [x for x in vl.node.body if not (isinstance(x, ast.Expr) and isinstance(x.value, ast.Constant))]
+    if not vloops and not vwh and len(vbody) == 1 and isinstance(vbody[0], ast.Return) and vbody[0].value is not None:
+        # third form: the comparison is left to the container: `first[0] < second[0]` on the two vectors themselves
+        # (std::vector's operator< is the lexicographic order: first differing element decides, a proper prefix is lower)
+        rv = vbody[0].value
+        okC = u(rv) == "%s[0] < %s[0]" % (a, b) or (isinstance(rv, ast.Compare) and len(rv.ops) == 1 and isinstance(rv.ops[0], ast.Gt) and u(rv.left) == "%s[0]" % b and u(rv.comparators[0]) == "%s[0]" % a)
+        ptrs = all("priority_type" in u(x.annotation) for x in vl.node.args.args[:2] if x.annotation is not None) and all(x.annotation is not None for x in vl.node.args.args[:2])
+        ctx.ob(vl.qual, "lexicographic-lower", (okC if ptrs else None), vl.loc(), "scores are compared with the vectors' own `<` (lexicographic; a proper prefix is lower)" if okC and ptrs else ("_vector_score_lower returns `%s`, not `first < second` on the two score vectors" % u(rv) if ptrs else "cannot read the parameter types of _vector_score_lower"))
+    elif not vloops and len(vwh) == 1:
         # second form: skip the equal common prefix with a cursor, then let the first differing element (or the lengths) decide
         #   i = 0; common = min(size(a), size(b)); while i < common and a[i] == b[i]: i += 1
         #   if i < common: return a[i] < b[i];  return size(a) < size(b)
